@@ -1036,11 +1036,12 @@ func c11PanicSite(msg string) string {
 type c11Counts struct {
 	add     map[string]int64
 	outcome map[string]int64
-	vio     map[string]int // violations seen per signature in this task (not reported; see c12Violate)
+	vio     map[string]int    // violations seen per signature in this task (not reported; see c12Violate)
+	sites   map[string]string // panic message -> panic site (stack captured once per message)
 }
 
 func c11NewCounts() *c11Counts {
-	return &c11Counts{add: map[string]int64{}, outcome: map[string]int64{}, vio: map[string]int{}}
+	return &c11Counts{add: map[string]int64{}, outcome: map[string]int64{}, vio: map[string]int{}, sites: map[string]string{}}
 }
 
 var (
